@@ -213,9 +213,14 @@ pub fn main(args: &[String]) {
     let mut r = StdRng::seed_from_u64(seed);
     let progs: Vec<String> = corpus::programs().into_iter().filter(|p| !p.contains("exfalso") && !p.contains("t = int -> t")).collect();
     let parsed: Vec<Value> = progs.iter().filter_map(|p| parse_to_json(p)).collect();
-    let mut out = String::new();
-    let mut emit = |text: String, origin: &str| {
-        out += &format!("{}\n", json!({"text": text, "origin": origin}));
+    let out_cell = std::cell::RefCell::new(String::new());
+    let emit = |text: String, origin: &str| {
+        *out_cell.borrow_mut() += &format!("{}\n", json!({"text": text, "origin": origin}));
+    };
+    // a program built as a term: the text is its rendering, and the term travels with the event as `gen`, so that a program the
+    // FRONT END rejects (definition order, scoping) can still be judged against the specification
+    let emit_term = |t: Value, origin: &str| {
+        *out_cell.borrow_mut() += &format!("{}\n", json!({"text": c_pipe::unparse(&t, 0), "origin": origin, "gen": t}));
     };
     match kind {
         "corpus" => {
@@ -573,6 +578,188 @@ pub fn main(args: &[String]) {
                 emit(format!("{}{sep}{main}", slots.join(sep)), "groups");
             }
         }
+        "deforder3" => {
+            // every group of three definitions (a function or a computed integer each, each referring to at most one other member:
+            // functions use an integer or call a function, integers use an integer or call a function) in every order, with two
+            // bodies, as the outermost group and as a local group -- built as TERMS, so that the verdict of the definition-order
+            // check is judged in both directions (wrongly rejected: C05; wrongly accepted and stuck: C01)
+            let int = || json!({"k": "int"});
+            let lit = |n: u64| json!({"k": "lit", "v": {"s": if n == 0 { 0 } else { 1 }, "m": if n == 0 { json!([]) } else { json!([n]) }}});
+            let var = |i: usize| json!({"k": "var", "i": i, "n": "v"});
+            let bin = |op: &str, a: Value, b: Value| json!({"k": "bin", "op": op, "a": a, "b": b});
+            let app = |a: Value, b: Value| json!({"k": "app", "a": a, "b": b});
+            let arrow = || json!({"k": "pi", "n": "_", "imp": false, "a": {"k": "int"}, "b": {"k": "int"}});
+            let lam = |b: Value| json!({"k": "lam", "n": "x", "imp": false, "a": {"k": "int"}, "b": b});
+            let n = 3usize;
+            let mut all = vec![];
+            // per definition: (is_fun, target) with target in 0..=n (n = none); index of member j inside the group: n-1-j
+            let choices: Vec<(bool, usize)> = (0..2).flat_map(|f| (0..=n).map(move |t| (f == 1, t))).collect();
+            for c0 in &choices { for c1 in &choices { for c2 in &choices {
+                let cs = [*c0, *c1, *c2];
+                if (0..n).any(|i| cs[i].1 == i) { continue; }        // self reference: recursion families cover it
+                let defs: Vec<Value> = (0..n).map(|i| {
+                    let (is_fun, t) = cs[i];
+                    let d = if is_fun {
+                        // inside the function the members are one binder further away
+                        let m = |j: usize| var(n - 1 - j + 1);
+                        let body = if t == n { bin("sum", var(0), lit(i as u64 + 1)) } else if cs[t].0 { bin("sum", app(m(t), var(0)), lit(1)) } else { bin("sum", m(t), var(0)) };
+                        lam(body)
+                    } else {
+                        let m = |j: usize| var(n - 1 - j);
+                        if t == n { bin("sum", lit(i as u64 + 1), lit(1)) } else if cs[t].0 { app(m(t), lit(2)) } else { bin("sum", m(t), lit(1)) }
+                    };
+                    json!({"n": "d", "ann": if is_fun { arrow() } else { int() }, "def": d})
+                }).collect();
+                for bodyk in 0..n {
+                    let b = if cs[bodyk].0 { app(var(n - 1 - bodyk), lit(3)) } else { var(n - 1 - bodyk) };
+                    all.push(json!({"k": "let", "defs": defs, "b": b}));
+                }
+            }}}
+            let total = all.len();
+            let keep = if count == 0 { total } else { count.min(total) };
+            let stride = (total / keep).max(1);
+            for (i, g) in all.into_iter().enumerate() {
+                if i % stride != 0 { continue; }
+                if i % (7 * stride) == 0 {
+                    // the same group as a local group in a function body
+                    let local = json!({"k": "app", "a": {"k": "lam", "n": "n", "imp": false, "a": {"k": "int"}, "b": shift_json(&g, 0, 1)}, "b": lit(1)});
+                    emit_term(local, "deforder3");
+                }
+                emit_term(g, "deforder3");
+            }
+        }
+        "groundindex2" => {
+            // conversion of NEUTRAL terms must go below the head: a type family with two indices (the first convertible only by
+            // computing), a stuck conditional whose condition needs computing below its own head, a stuck negation / operator
+            // against its operand.  Accepted iff the indices agree.
+            let small = |r: &mut StdRng| { let v: i64 = r.gen_range(0..8); v.to_string() };
+            for i in 0..count {
+                let (a, b) = (small(&mut r), small(&mut r));
+                let o = ["+", "-", "*"][r.gen_range(0..3)];
+                let val: i64 = { let (x, y): (i64, i64) = (a.parse().unwrap(), b.parse().unwrap()); match o { "+" => x + y, "-" => x - y, _ => x * y } };
+                let right = r.gen_bool(0.6);
+                let c = if right { val } else { val + r.gen_range(1..3) };
+                let c = if c < 0 { format!("(0 - {})", -c) } else { c.to_string() };
+                let k2 = small(&mut r);
+                let text = match i % 8 {
+                    0 => format!("(p : int -> int -> type) => (f : p ({a} {o} {b}) {k2} -> int) => (x : p {c} {k2}) => f x"),
+                    1 => format!("(p : int -> int -> type) => (f : p {k2} ({a} {o} {b}) -> int) => (x : p {k2} {c}) => f x"),
+                    2 => format!("(p : int -> bool -> int -> type) => (f : p ({a} {o} {b}) true {k2} -> int) => (x : p {c} true {k2}) => f x"),
+                    3 => format!("(g : int -> bool) => (p : int -> type) => (f : p (if g ({a} {o} {b}) then 1 else 2) -> int) => (x : p (if g {c} then 1 else 2)) => f x"),
+                    4 => format!("(g : int -> int) => (p : int -> type) => (f : p (g ({a} {o} {b}) + 1) -> int) => (x : p (g {c} + 1)) => f x"),
+                    5 => { let (l, rr) = if right { ("- n", "- n") } else if r.gen_bool(0.5) { ("- n", "n") } else { ("n", "- n") };
+                           format!("(n : int) => (p : int -> type) => (f : p ({l}) -> int) => (x : p ({rr})) => f x") }
+                    6 => { let ops = ["+", "-", "*", "/"]; let o1 = ops[r.gen_range(0..4)]; let o2 = if right { o1 } else { ops[r.gen_range(0..4)] };
+                           let (l, rr) = if right || o1 != o2 { (format!("n {o1} m"), format!("n {o2} m")) } else { (format!("n {o1} m"), format!("m {o1} n")) };
+                           format!("(n : int) => (m : int) => (p : int -> type) => (f : p ({l}) -> int) => (x : p ({rr})) => f x") }
+                    _ => format!("(h : int -> int -> int) => (p : int -> type) => (f : p (h ({a} {o} {b}) {k2}) -> int) => (x : p (h {c} {k2})) => f x"),
+                };
+                emit(text, "groundindex2");
+            }
+        }
+        "holescope" => {
+            // an omitted parameter domain (a hole written under the type parameters a, b) that is used under FURTHER binders --
+            // parameters and local definitions, among them definitions of ground types -- before and after the use that solves it.
+            // The hole is solved late, by a variable bound outside, and is read at depths where the same index means something else.
+            let binders = ["(y@ : a) => ", "(y@ : b) => ", "t@ = int; ", "t@ = bool; ", "t@ = a; ", "u@ = 3; ", "(y@ : int) => "];
+            let forced = ["a", "b", "int", "t"];
+            let mut all = vec![];
+            for b1 in 0..=binders.len() { for b2 in 0..=binders.len() {
+                if b1 == binders.len() && b2 != binders.len() { continue; }
+                let picked: Vec<String> = [b1, b2].iter().enumerate().filter(|(_, i)| **i < binders.len()).map(|(k, i)| binders[*i].replace('@', &(k + 1).to_string())).collect();
+                let bs: String = picked.concat();
+                // the innermost local definition named t*, if any
+                let tname = picked.iter().rev().find(|b| b.starts_with('t')).map(|b| b[..2].to_string());
+                for fz in forced {
+                    let fz = if fz == "t" { match &tname { Some(t) => t.clone(), None => continue } } else { fz.to_string() };
+                    for shape in 0..8 {
+                        let body = match shape {
+                            0 => format!("if true then x else ((z : {fz}) => z) x"),
+                            // the branches disagree unless the hole's solution is (mis)read as a ground type
+                            3 => format!("if true then x else ((z : {fz}) => 3) x"),
+                            4 => format!("if true then ((z : {fz}) => true) x else x"),
+                            5 => format!("((z : {fz}) => (w : int) => w) x x"),
+                            // the unsolved hole is captured below a binder inside a definition, solved by a sibling, then read back
+                            6 => format!("f = (y : int) => x; g = ((z : {fz}) => z) x; f 3"),
+                            7 => format!("f = (y : int) => (y2 : bool) => x; g = ((z : {fz}) => z) x; h = f 3; h true"),
+                            1 => format!("((z : {fz}) => (w : a) => z) x x"),
+                            _ => format!("((k : {fz} -> {fz}) => k x) ((z : {fz}) => x)"),
+                        };
+                        all.push(format!("(a : type) => (b : type) => x => {bs}{body}"));
+                        all.push(format!("(a : type) => x => (b : type) => {bs}{body}"));
+                    }
+                }
+            }}
+            let total = all.len();
+            let keep = if count == 0 { total } else { count.min(total) };
+            let stride = (total / keep).max(1);
+            for (i, t) in all.into_iter().enumerate() {
+                if i % stride == 0 { emit(t, "holescope"); }
+            }
+        }
+        "nestgroup" => {
+            // a group of type aliases (to a ground type, to a type parameter bound OUTSIDE the group, to another member) in every
+            // order, under one or two outer parameters, used below zero to two further parameters: as a parameter's domain, in the
+            // result type of the whole group, applied, and at a wrong type.  The group's own type mentions members other than the
+            // first, members that refer to the outside, and is read back at several depths.
+            let members = [("g1", "int"), ("g2", "A"), ("g3", "g1"), ("g4", "g2")];
+            let perms: [[usize; 3]; 6] = [[0, 1, 2], [0, 2, 1], [1, 0, 2], [1, 2, 0], [2, 0, 1], [2, 1, 0]];
+            let mut all = vec![];
+            for trio in [[0usize, 1, 2], [0, 1, 3], [1, 0, 3]] {
+                for perm in perms {
+                    let defs: Vec<String> = perm.iter().map(|i| { let (n, d) = members[trio[*i]]; format!("{n} : type = {d}") }).collect();
+                    let names: Vec<&str> = trio.iter().map(|i| members[*i].0).collect();
+                    for outer in ["(A : type) => (v : A) => ", "(A : type) => (B : type) => (v : A) => "] {
+                        for inner in ["", "(p : int) => ", "(p : int) => (q : B0) => "] {
+                            let inner = inner.replace("B0", if outer.contains("B :") { "B" } else { "A" });
+                            for nm in &names {
+                                let ground = *nm == "g1" || *nm == "g3";
+                                let mut bodies = vec![format!("(z : {nm}) => z"), format!("((z : {nm}) => z) {}", if ground { "3" } else { "v" }), format!("((z : {nm}) => (w : {nm}) => z) {}", if ground { "3" } else { "v" })];
+                                if ground { bodies.push(format!("((z : {nm}) => z + 1) 3")); bodies.push(format!("((z : {nm}) => z) v")); } else { bodies.push(format!("((z : {nm}) => z) 3")); }
+                                for b in bodies {
+                                    all.push(format!("{outer}({}; {inner}{b})", defs.join("; ")));
+                                }
+                            }
+                        }
+                    }
+                }
+            }
+            let total = all.len();
+            let keep = if count == 0 { total } else { count.min(total) };
+            let stride = (total / keep).max(1);
+            for (i, t) in all.into_iter().enumerate() {
+                if i % stride == 0 { emit(t, "nestgroup"); }
+            }
+        }
+        "typerec" => {
+            // a RECURSIVE type-level function in a group, whose base case is another member of the group (before or after it), next
+            // to filler members; a member is annotated with an application of it; the group is the argument of a function that
+            // expects the right or a wrong ground type.  Unfolding the recursive member at type level must keep the references to
+            // its siblings intact at every position of the group.
+            let mut all = vec![];
+            let others: [(&str, &str); 3] = [("b", "bool"), ("c", "int"), ("w", "5")];
+            for npos in 0..4usize {                       // position of `pick` among the other three members
+                for base in ["b", "c"] {
+                    for depth in [0, 1, 2] {
+                        for order in [[0usize, 1, 2], [1, 0, 2], [2, 1, 0], [0, 2, 1]] {
+                            let mut defs: Vec<String> = order.iter().map(|i| format!("{} = {}", others[*i].0, others[*i].1)).collect();
+                            defs.insert(npos.min(defs.len()), format!("pick : (int -> type) = (n : int) => if n == 0 then {base} else pick (n - 1)"));
+                            let (val, ty) = if base == "b" { ("true", "bool") } else { ("7", "int") };
+                            let group = format!("({}; y : pick {depth} = {val}; y)", defs.join("; "));
+                            all.push(format!("g = (z : {ty}) => 1\ng {group}"));
+                            all.push(format!("g = (z : {}) => 1\ng {group}", if ty == "bool" { "int" } else { "bool" }));
+                            all.push(format!("{}; y : pick {depth} = {}; y", defs.join("; "), if base == "b" { "3" } else { "false" }));
+                        }
+                    }
+                }
+            }
+            let total = all.len();
+            let keep = if count == 0 { total } else { count.min(total) };
+            let stride = (total / keep).max(1);
+            for (i, t) in all.into_iter().enumerate() {
+                if i % stride == 0 { emit(t, "typerec"); }
+            }
+        }
         "groundindex" => {
             // conversion must COMPUTE: f : p (E) -> int applied to x : p (c) with E closed arithmetic and c a literal; accepted iff E
             // evaluates to c (every operator of the normaliser, negative operands, division toward zero, comparisons)
@@ -713,7 +900,7 @@ pub fn main(args: &[String]) {
         }
         k => panic!("unknown generator {k}"),
     }
-    print!("{out}");
+    print!("{}", out_cell.borrow());
 }
 
 // ---- type-directed generator: programs that are well typed BY CONSTRUCTION (fully annotated; groups, nested groups under
@@ -1072,4 +1259,32 @@ pub fn dependent_program(r: &mut StdRng) -> String {
         1 => format!("(p : int -> type) => (g : int -> int) => (b : bool) => (n : int) => (m : int) => (x : p ({s2})) => (y : p ({s1}) = x; y)"),
         _ => format!("(p : int -> type) => (g : int -> int) => (b : bool) => (n : int) => (m : int) => (x : p ({s1})) => (h : (p ({s1}) -> int) -> int) => h ((z : p ({s2})) => 0)"),
     }
+}
+
+// free variables with index >= cutoff move up by `by` (a JSON term is placed under further binders)
+pub fn shift_json(v: &Value, cutoff: u64, by: u64) -> Value {
+    let k = v["k"].as_str().unwrap_or("");
+    let mut o = v.clone();
+    match k {
+        "var" => {
+            let i = v["i"].as_u64().unwrap();
+            if i >= cutoff { o["i"] = json!(i + by); }
+        }
+        "hole" => {
+            let i = v["sh"].as_u64().unwrap();
+            if i >= cutoff { o["sh"] = json!(i + by); }
+        }
+        "lam" | "pi" => { o["a"] = shift_json(&v["a"], cutoff, by); o["b"] = shift_json(&v["b"], cutoff + 1, by); }
+        "app" | "bin" => { o["a"] = shift_json(&v["a"], cutoff, by); o["b"] = shift_json(&v["b"], cutoff, by); }
+        "neg" => { o["a"] = shift_json(&v["a"], cutoff, by); }
+        "if" => { for f in ["c", "a", "b"] { o[f] = shift_json(&v[f], cutoff, by); } }
+        "let" => {
+            let n = v["defs"].as_array().unwrap().len() as u64;
+            let defs: Vec<Value> = v["defs"].as_array().unwrap().iter().map(|d| { let mut d2 = d.clone(); d2["ann"] = shift_json(&d["ann"], cutoff + n, by); d2["def"] = shift_json(&d["def"], cutoff + n, by); d2 }).collect();
+            o["defs"] = json!(defs);
+            o["b"] = shift_json(&v["b"], cutoff + n, by);
+        }
+        _ => {}
+    }
+    o
 }
